@@ -304,3 +304,50 @@ func (c *Ctx) replacerPairs(v ssa.Value) ([]string, bool) {
 	}
 	return out, true
 }
+
+// globalStringMapKeys: the constant string keys of a package-level map that the package initialiser
+// builds from a literal and that no function of the module updates or deletes from.
+func (c *Ctx) globalStringMapKeys(g *ssa.Global) []string {
+	mk, ok := c.globalInitValue(g).(*ssa.MakeMap)
+	if !ok {
+		return nil
+	}
+	var keys []string
+	for _, ref := range *mk.Referrers() {
+		switch x := ref.(type) {
+		case *ssa.MapUpdate:
+			k, ok := cStr(constOf(x.Key))
+			if !ok {
+				return nil
+			}
+			keys = append(keys, k)
+		case *ssa.Store, *ssa.DebugRef:
+		default:
+			return nil
+		}
+	}
+	// no update through a load of the global anywhere in the module
+	mutated := false
+	for _, fn := range c.P.SrcFuncs() {
+		for _, h := range withAnons(fn) {
+			allInstrs(h, func(in ssa.Instruction) {
+				var m ssa.Value
+				switch x := in.(type) {
+				case *ssa.MapUpdate:
+					m = x.Map
+				case *ssa.Call:
+					if n := builtinName(x.Common()); n == "delete" || n == "clear" {
+						m = x.Common().Args[0]
+					}
+				}
+				if u, ok := m.(*ssa.UnOp); ok && u.Op == token.MUL && u.X == ssa.Value(g) {
+					mutated = true
+				}
+			})
+		}
+	}
+	if mutated {
+		return nil
+	}
+	return keys
+}
